@@ -66,7 +66,10 @@ func (ex *Exec) mapUpdate(mv, k, v Value) {
 			return
 		}
 		if !eq.IsFalse() {
-			panic(ex.unsupported("symbolic key in generic map"))
+			if ex.branch(eq, "gmap-update-key") {
+				m.vs[i] = v
+				return
+			}
 		}
 	}
 	m.ks = append(m.ks, k)
@@ -410,6 +413,9 @@ type ChanObj struct {
 }
 
 func (ex *Exec) chanOf(v Value) *ChanObj {
+	if iv, ok := v.(*IfaceV); ok && iv.typ != nil {
+		v = iv.v
+	}
 	if o, ok := v.(*OpaqueV); ok {
 		if c, ok := o.data.(*ChanObj); ok {
 			return c
